@@ -17,7 +17,7 @@ var atoms = []string{"a", "b", "z", "0", "_", " ", ".", `\d`, `\D`, `\w`, `\W`, 
 	"[:alpha:]", "[:digit:]", "[:word:]", "[:nope:]", "$", "^", "-", ",", "}", "]", ")", "?", "+", "*", "|", "(", "[", "{"}
 var groupItems = []string{"a", "z", "0", "9", "_", "-", "^", "]", `\]`, `\\`, `\d`, `\w`, `\s`, "a-z", "0-9", "A-Z", "z-a", "a-", "-a", `\x41`, `\x41-\x5A`, `\xFF`, `\x80-\xFF`, `\x0100`, `\x0100-\x0200`, `\xFFFFFFFF`, `\x7FFFFFFF`, `\x00-\xFFFFFFFF`, `\x0010FFFF`, `\x00110000`,
 	"é", "€", "a-é", "🌵", "[:alpha:]", "[:digit:]", "[:ascii:]", "[:nope:]", `\p{L}`, `\P{L}`, " ", ".", "*", "(", "|"}
-var quants = []string{"", "", "", "?", "*", "+", "??", "*?", "+?", "{2}", "{0}", "{1,3}", "{2,}", "{,3}", "{3,1}", "{}", "{a}", "{20}", "{0,0}", "{1,1}?"}
+var quants = []string{"", "", "", "?", "*", "+", "??", "*?", "+?", "{2}", "{0}", "{1,3}", "{2,}", "{,3}", "{3,1}", "{}", "{a}", "{4}", "{0,0}", "{1,1}?"}
 
 // GenPattern draws a pattern string and a shape class: atoms, bracket groups, groups, quantifiers,
 // non-ASCII characters and escapes, with an optional one-edit mutation.
